@@ -6,6 +6,7 @@ S: the property itself on the implementation: pair(project(i)) == i, project(pai
 from __future__ import annotations
 
 import itertools
+import random
 import math
 
 import numpy as np
@@ -27,8 +28,9 @@ RULE = ("indices: every index below the tier bound (quick 4096, thorough 262144)
         "zeros/ones and seeded random unequal lists; grids: the six 1-d constructors x model families through "
         "create_sampling_inversion_method, synthetic (L,R), box grids d=2,3 (fixed-size, copula credit) x every pairing. "
         "non-trivial = index >= 2 / at least two states; distinct = distinct (probe, pairing, d, block or shape)")
-NOT_PROVED = ["HyperbolicPairing (divisor-summatory inverse + factorisation): bijectivity not proved, round trips "
-              "oracle-checked for indices < 2000 and a 40x40 square only",
+NOT_PROVED = ["HyperbolicPairing (divisor-summatory inverse + factorisation): bijectivity not proved, round trips oracle-checked "
+              "for all indices < 2000, a 40x40 square, and the indices where the inverse of the divisor-summatory function is hardest "
+              "(largest error term relative to z^(1/4), found by a sieve up to n = 4e5 quick / 3e6 thorough)",
               "PairingToZ1d.project for arbitrary call orders: false as coded - it holds in increasing order (theorem "
               "z1d_machine_increasing); z1d_order_counterexample is the negation witness (known finding C14-z1d-call-order)",
               "StatesManager on a box with Rosenberg-Strong: exactly-once-then-exhaustion is proved under the hypothesis "
@@ -196,6 +198,51 @@ def probe_hyperbolic(ctx, inp):
             if not ok or not ok2 or back != (x, y):
                 ctx.fail("oracle", probe, dict(inp, tuple=[x, y]), {"what": "projection(pairing(x)) != x", "index": repr(z), "back": repr(back)})
                 return
+
+
+def _divisor_sums(M):
+    """D[n] = sum_{k<=n} d(k) = a_n(n) by a sieve (independent of the implementation's closed form), n = 0..M"""
+    d = np.zeros(M + 1, dtype=np.int32)
+    for k in range(1, M + 1):
+        d[k::k] += 1
+    return np.cumsum(d.astype(np.int64))
+
+
+def probe_hyperbolic_hard(ctx, inp):
+    """oracle only: the hyperbolic projection inverts the divisor-summatory function inside a heuristic bracket
+    (numbers.upper_bound_a_n); the indices where that can go wrong are those where the error term
+    D(n) - (n log n + (2 gamma - 1) n) is largest relative to D(n)^(1/4).  They are found with a sieve (or given explicitly
+    in a replay record) and checked exactly: upper_bound_a_n(z) is the n with a_n(n-1) <= z < a_n(n), and
+    pairing(projection(z)) = z with projection(z) not already taken by z-1 / z+1."""
+    from rpylib.numerical.numbers import upper_bound_a_n, a_n, euler_gamma
+    probe = "c14.hyperbolic_hard"
+    hp = HyperbolicPairing()
+    if "indices" in inp:
+        zs = [int(z) for z in inp["indices"]]
+    else:
+        M, top, seed = inp["M"], inp["top"], inp["seed"]
+        D = _divisor_sums(M)
+        n = np.arange(1, M + 1, dtype=np.float64)
+        ratio = np.abs(D[1:] - (n * np.log(n) + (2 * euler_gamma - 1) * n)) / np.maximum(D[1:], 1) ** 0.25
+        hard = list(np.argsort(-ratio)[:top] + 1)
+        r = random.Random(seed)
+        hard += [r.randrange(2, M) for _ in range(top // 8)]
+        zs = sorted({int(z) for nn in hard for z in (D[nn - 1], D[nn] - 1, D[nn]) if z > 0})
+        ctx.branches["c14.hyperbolic_hard:max_error_ratio_x1000"] = int(1000 * float(ratio.max()))
+    ctx.count(probe, {k: v for k, v in inp.items()}, branch="oracle-only")
+    ctx.evaluations += len(zs) - 1
+    for z in zs:
+        ok, nn = ctx.guard(probe, inp, lambda: int(upper_bound_a_n(z)))
+        if not ok or not (a_n(nn - 1) <= z < a_n(nn)):
+            ctx.fail("oracle", probe, dict(indices=[z]), {"what": "upper_bound_a_n(z) is not the n with a_n(n-1) <= z < a_n(n)", "returned": repr(nn),
+                                                         "a_n(n-1)": int(a_n(nn - 1)) if ok else None, "a_n(n)": int(a_n(nn)) if ok else None})
+            return
+        ok, t = ctx.guard(probe, inp, lambda: tuple(int(v) for v in hp.projection(z)))
+        ok2, back = ctx.guard(probe, inp, lambda: int(hp.pairing(t))) if ok else (False, None)
+        if not ok or not ok2 or back != z or min(t) < 0:
+            ctx.fail("oracle", probe, dict(indices=[z]), {"what": "pairing(projection(z)) != z", "tuple": repr(t), "back": repr(back)})
+            return
+
 
 
 # ------------------------------------------------------------------------------------------- probes: N <-> Z, Z^d
@@ -648,6 +695,7 @@ def probe_sm_history(ctx, inp):
 
 
 PROBES = {"c14.proj_block": probe_proj_block, "c14.pair_tuples": probe_pair_tuples, "c14.hyperbolic": probe_hyperbolic,
+          "c14.hyperbolic_hard": probe_hyperbolic_hard,
           "c14.fold": probe_fold, "c14.zd_block": probe_zd_block, "c14.zd_states": probe_zd_states,
           "c14.z1d_increasing": probe_z1d_increasing, "c14.z1d_order": probe_z1d_order, "c14.z1d_stable": probe_z1d_stable,
           "c14.sm_frontier_after_exhaustion": probe_sm_frontier_after_exhaustion, "c14.lazy": probe_lazy,
@@ -707,6 +755,7 @@ def run(ctx):
         tuples = {(rng.randrange(0, 2 ** 20), rng.randint(0, 60)) for _ in range(6)}
         probe_pair_tuples(ctx, dict(kind="pepis", tuples=[list(t) for t in sorted(tuples)], why="large"))
     probe_hyperbolic(ctx, dict(n=2000, side=ctx.n(25, 40)))
+    probe_hyperbolic_hard(ctx, dict(M=ctx.n(400_000, 3_000_000), top=ctx.n(1200, 8000), seed=rng.randrange(2 ** 30)))
     # 4. folding and Z^d
     probe_fold(ctx, dict(values=list(range(-300, 301)), why="range"))
     probe_fold(ctx, dict(values=[s * (2 ** k + e) for k in range(8, 100, 7) for e in (-1, 0, 1) for s in (1, -1)], why="large"))
